@@ -175,6 +175,13 @@ def classify(script, meta, mism):
     return None
 
 
+def pre_run(ctx):
+    # tie of coq/SummQ.v (Properties_C15.v: summaries do not depend on omission; exact reconstruction): stored SUMMARY
+    # entries incl. files with omitted blocks vs the extracted model
+    import C02_summ
+    C02_summ.run_summ(ctx, build=False, gap_clause=False)
+
+
 def run(ctx):
     return proglib.run_prog_property(
         ctx, PROP_FILES, gen_case, ("fsr",), 200, 2000,
@@ -184,7 +191,7 @@ def run(ctx):
         "of <= 8-bit types read back bit-exactly through unaligned windows crossing omitted/stored boundaries; blocks omitted on request return "
         "the right number of bytes; level-1 and level-2 statistics answered from stored summaries are bit-identical between the two signals; "
         "distinct = script; non-trivial = at least one block omitted",
-        classify=classify, extra_check=extra_check, timeout=60)
+        classify=classify, extra_check=extra_check, timeout=60, pre_run=pre_run)
 
 
 def replay(ctx, path):
